@@ -21,6 +21,13 @@ theorem stored_is_concat (need : List Nat) (es : List Ev) (s : St) (h : run { ne
   have := storedFor_run es { need := need } s h id
   simpa [storedFor] using this
 
+/-- Once FIN has been sent the ids requested are exactly the ids the change computation needs (as sets):
+nothing needed was skipped and nothing else was asked for. -/
+theorem requests_are_exactly_the_needed_ids (need : List Nat) (es : List Ev) (s : St) (h : run { need := need } es = some s)
+    (hf : s.finSent = true) (id : Nat) : id ∈ s.reqd ↔ id ∈ s.need := by
+  obtain ⟨h1, _, h3, h4⟩ := receiver_protocol need es s h
+  exact ⟨fun hr => (h1 id hr).1, fun hn => h3 id ((h4 hf).2 id hn)⟩
+
 /-- non-vacuity -/
 example : (run { need := [1] } [.rStat, .rStat, .sReq 1, .rData 1 [7, 8], .rEnd, .rData 1 [9], .rTerm 1, .sFin]).isSome = true := by
   decide
